@@ -42,6 +42,10 @@ inline uint64_t splitmix(uint64_t& s) { uint64_t z = (s += 0x9E3779B97F4A7C15ull
 // flavour 0: small integers (exact arithmetic), 1: moderate reals, 2: special-value rich
 inline uint64_t input_bits(Kind k, int arg, int comp, uint64_t seed, int trial, int flavour)
 {
+	if (flavour == 3) {   // tag values: 10*(arg+1) + comp + 1, exactly representable in every kind
+		long long tag = 10ll * (arg + 1) + comp + 1;
+		if (k == F32) return to_bits<float>((float)tag); if (k == F64) return to_bits<double>((double)tag); return (uint64_t)tag;
+	}
 	uint64_t s = seed * 0x100000001B3ull + (uint64_t)trial * 1000003ull + (uint64_t)arg * 8191ull + (uint64_t)comp * 131ull + (uint64_t)k;
 	uint64_t r = splitmix(s), r2 = splitmix(s);
 	if (kind_is_float(k)) {
@@ -376,8 +380,20 @@ inline int run_all(char const* module_comment, std::ostream& out, std::ostream& 
 } // namespace vt
 
 // standard main for a trace program: argv[1] = output .v, argv[2] = log, env VERIF_SEED, VT_TRIALS
+namespace vt {
+// --replay <entry>: run the REAL instantiation of one entry on tag inputs (component i of argument a = 10(a+1)+i+1)
+inline int replay_entry(char const* name) {
+	for (Entry const& e : registry()) if (e.name == name) {
+		Ctx<ConcFam> cc; cc.seed = 0; cc.trial = 0; cc.flavour = 3; e.cc(cc);
+		std::printf("REPLAY %s outputs=[", name);
+		for (size_t i = 0; i < cc.outs.size(); ++i) { Val v = cc.outs[i].val; double d = v.k == F32 ? (double)from_bits<float>(v.bits) : v.k == F64 ? from_bits<double>(v.bits) : kind_is_signed(v.k) ? (double)(int64_t)(v.k == I32 ? (int64_t)(int32_t)v.bits : (int64_t)v.bits) : (double)v.bits; std::printf("%s%.17g", i ? ";" : "", d); }
+		std::printf("]\n"); return 0; }
+	std::printf("REPLAY %s not-found\n", name); return 3;
+}
+}
 #define VT_MAIN(COMMENT) \
 int main(int argc, char** argv) { \
+	if (argc >= 3 && std::string(argv[1]) == "--replay") return vt::replay_entry(argv[2]); \
 	if (argc < 3) { std::fprintf(stderr, "usage: %s out.v log\n", argv[0]); return 2; } \
 	std::ostringstream out, log; vt::RunStats st; \
 	uint64_t seed = std::getenv("VERIF_SEED") ? std::strtoull(std::getenv("VERIF_SEED"), 0, 10) : 1; \
